@@ -30,6 +30,7 @@ ASSUMPTIONS = [
     "D-eigen: the vendored stand-in /verif/replay/standin/Eigen/Dense behaves like Eigen for fixed-size matrices (real Eigen is not available offline); compilation is checked against it only",
     "the expression grammar printed by sympy.ccode is parsed with python's ast after a syntactic rewrite of C ternaries / && / || / ! (same precedence for + - * / and comparisons; pow and elementary functions as calls; a comparison used arithmetically is 0/1); integer/integer division is rejected",
     "elementary functions uninterpreted (sound: may answer undecided, never a wrong proof) except fabs / Abs / sign / Piecewise, which are their definitions; floats as reals",
+    "D-fmod: the generated idiom fmod(fmod(a, b) + b, b) is the floored modulo a - b*floor(a/b) for b != 0 (recognised syntactically); C fmod(a, b) = a - b*trunc(a/b); sympy Mod / floor / ceiling through z3 to_int",
     "D-diff (weakened after D12/D14): sympy's diff / jacobian entry is the partial derivative of the real function only when it is returned in closed form; D-dummy, D-xr, D-ren (renaming theory, pvc/sympy_model.py) for cpp._partial_derivative; the per-program oracle is the real-valued derivative (an entry sympy leaves unevaluated: exact central difference, h = 2^-10)",
     "symbol names are C++ identifiers not colliding with generated members (premise of the property)",
     "D-subs: sympy's e.subs(pairs) has the value of e with each member symbol read through its accessor (assumed; exercised per program by (b))",
@@ -180,6 +181,14 @@ def check(run):
         programs += 1
         for ob, p in probs[:1]:
             run.findings.append(Finding(ob.name, "Model::model", f"plain model, shape {shp}: {p}", {"language": "c++", "inputs": {"shape": list(shp), "seed": run.seed + 5 + 31 * t, "cse": True, "ekf": False}}, True))
+    # plain model with a WRAPPED quantity (Mod(v, 3), no Jacobians involved): sympy's Mod and Python's % take the sign of the divisor, C's
+    # fmod the sign of the dividend - the generated statement must have the value of the symbolic expression for negative operands too
+    wm = scenarios.Scenario(2, 0, 1, [1], seed=run.seed + 11, wrapped=True)
+    for cse in (True, False):
+        programs += 1
+        probs, header, source = G.validate_program(run, wm, f"wrapped_model.cse_{'on' if cse else 'off'}", cse=cse, ekf=False, prefix="C02")
+        for ob, p in probs[:1]:
+            run.findings.append(Finding(ob.name, "Model::model.wrapped", f"plain model with Mod(v, 3) (cse={cse}): {p}", {"language": "c++", "inputs": {"shape": [2, 0, 1, [1]], "seed": run.seed + 11, "cse": cse, "ekf": False, "wrapped_model": True}, "model_definition": wm.describe()}, True))
     # generator-level refutations: confirmed by the per-program validation of this same run when it found a wrong program
     for rep, ob, model, definitive in pending:
         confirmed = bool(run.findings)
@@ -198,6 +207,12 @@ def replay_file(payload):
         print("replay C02: generator-level obligation without a concrete program (see the obligation's note)")
         return True
     shp = inp["shape"]
+    if inp.get("wrapped_model"):
+        wm = scenarios.Scenario(shp[0], shp[1], shp[2], shp[3], seed=inp["seed"], wrapped=True)
+        run = driver.PropertyRun("C02", "quick", 0)
+        probs, h, s2 = G.validate_program(run, wm, "replay", cse=inp.get("cse", True), ekf=False)
+        print("replay C02 (plain model with a wrapped quantity):", [p for _, p in probs[:3]] or "generated statements have the value of the symbolic expressions, also for negative operands")
+        return not probs
     if inp.get("wrapped"):
         wsc = scenarios.Scenario(shp[0], shp[1], shp[2], shp[3], seed=inp["seed"], wrapped=True)
         out = {}
